@@ -29,7 +29,8 @@ def explicit_job(job, evs):
 
 def conformance(work, files, tag="k"):
     """TraceKismet: is every recorded plain-cache operation a path through Kismet.tla's control flow?"""
-    res = validate_traces(work, "TraceKismet", files, {"monitors": []}, tag=tag)
+    res = validate_traces(work, "TraceKismet", files, {"monitors": []}, tag=tag) + \
+        validate_traces(work, "TraceKismet", files, {"monitors": []}, tag=tag + "s", cfgname="TraceKismetSharded.cfg")
     ops = 0
     drifts = []
     for r in res:
